@@ -117,6 +117,11 @@ class Interp:
         u.is_init = fdef.name == "__init__"
         u.self_t = st.locals["self"].t if "self" in st.locals else None
         u.oblige(st, z3.BoolVal(False), "canary", "pre", set())
+        if c.defines:
+            impure = [n for n in ast.walk(fdef) if (isinstance(n, ast.Attribute) and isinstance(n.value, ast.Name)
+                                                    and n.value.id in ("self", "random")) or
+                      (isinstance(n, ast.Attribute) and n.attr == "random") or isinstance(n, (ast.Global, ast.Nonlocal))]
+            u.oblige(st, z3.BoolVal(not impure), "pure", "heap-and-rng-free", c.props)
         outcomes = self.exec_block(fdef.body, st, frame)
         rcond = {}
         for exc, text in clauses["raises"].items():
@@ -127,6 +132,12 @@ class Interp:
             u.oblige(s, z3.BoolVal(False), "canary", "end-" + kind, set())
             if kind in ("next", "return") and c.ghost_after:
                 self.run_ghost(c, s, frame)
+            if kind == "return" and c.defines:
+                # the spec function named here is, by definition, the value this function returns for its argument(s):
+                # legitimate because the body reads no heap and draws no random number (checked just below)
+                args = ", ".join(x.arg for x in fdef.args.args)
+                s.pc.append(self.spec("result == %s(%s)" % (c.defines, args), s, frame, old=u.entry,
+                                      binds=dict(u.entry.locals, result=v)))
             if kind in ("next", "return"):
                 for exc, cond in rcond.items():
                     u.oblige(s, z3.Not(cond), "post", "no-" + exc, c.props | {"C01"})
